@@ -122,7 +122,7 @@ Theorem C12_no_rewind_download_refuted :
 Proof. exact download_without_rewind_duplicates. Qed.
 Print Assumptions C12_no_rewind_download_refuted.
 
-(* ---- non-vacuity: budgets admit faults, and a concrete run with two faults in mid-transfer *)
+(* ---- non-vacuity: budgets leave room for faults, and a concrete run with two faults in mid-transfer *)
 Example C12_budget_inhabited : budget_ok FlLocal 4 /\ budget_ok FlS3 3 /\ budget_ok FlB2 3 /\ ~ budget_ok FlB2 4.
 Proof.
   unfold budget_ok, mt. split; [|split; [|split]].
